@@ -547,12 +547,16 @@ def r4_5(run):
     run.ob("thermal-search|masks-unchanged", key(b2.get(conn.params()[3])) == key(("n", "active_branch_lookup"))
            and key(b2.get(conn.params()[4])) == key(("n", "active_node_lookup")),
            "the thermal search uses the given masks unchanged", w)
-    # writers of FLOW_RETURN_CONNECT
+    # writers of FLOW_RETURN_CONNECT (and of DIRECTED)
     writers = {}
+    dwriters = {}
     for c in ix.components():
         if not ix.is_subclass(c, "BranchComponent"):
             continue
         ki, k = hook_summary(ix, c, "create_pit_branch_entries", {"option:transient": False, "any:*": True}, partial=True)
+        dv = pit_cols(ki).get("DIRECTED")
+        if dv is not None and not (tonum(dv).plain() is not None and tonum(dv).plain().is_zero()):
+            dwriters[c.name] = dv
         v = pit_cols(ki).get("FLOW_RETURN_CONNECT")
         if v is None:
             continue
@@ -573,6 +577,10 @@ def r4_5(run):
         m = ix.lookup_method(hc, "create_pit_branch_entries")
         check_equal(run, "flow-return|heat_consumer-always", writers["HeatConsumer"], g(Poly.const(1)),
                     "a heat consumer is always flow-return-connecting", run.where(m, m.node))
+    # the search follows a branch in both directions unless it is marked DIRECTED: only the pressure controller is (a passive flow
+    # controller, a pump or a valve marked one-way cuts off whatever is supplied through it against its orientation)
+    run.ob("directed|writers", set(dwriters) == {"PressureControlComponent"},
+           "DIRECTED is set only by the pressure controller: %s" % sorted(dwriters), "component_models")
     # pressure controllers are directed
     pc = component(ix, "PressureControlComponent")
     ki, k = hook_summary(ix, pc, "create_pit_branch_entries", {"option:transient": False})
